@@ -1,4 +1,84 @@
-(* theorems for C10 are being added (see SMP/) *)
+(* C10 - Outages block a component for exactly their duration, then release it. *)
 From Coq Require Import List ZArith Bool.
-Theorem C10_placeholder : True. Proof. exact I. Qed.
-Print Assumptions C10_placeholder.
+From JSL Require Import Base.Res Base.ListX SM.Types SM.Util SM.Handler SM.Step SM.Inv
+  SMP.Post SMP.PostApply SMP.Offers SMP.Clock.
+Import ListNotations.
+
+(* machine: blocked until now + longest active outage; the job stays inside (internal buffer untouched) *)
+Theorem C10_machine_blocked_exact :
+  forall sigma i x tr m ms x',
+    tr_comp tr = CM m -> nth_error (s_machs x) m = Some ms -> m_st ms = MWorking ->
+    apply_transition sigma i x tr = Ok x' ->
+    exists mc outs sto' occ_for,
+      nth_error (i_machs i) m = Some mc
+      /\ new_outage_states sigma (s_now x) (s_sto x) (mc_out mc) (m_out ms) = Ok (outs, sto')
+      /\ occupied_time outs = Ok occ_for
+      /\ nth_error (s_machs x') m = Some (mkMachine MOutage (Time (s_now x + occ_for)%Z) (m_pre ms) (m_in ms) (m_post ms) (m_tool ms) outs).
+Proof.
+  intros sigma i x tr m ms x' Hc Hm Hst H.
+  destruct (apply_machine sigma i x tr m ms x' Hc Hm H) as [[E _]|[[E _]|[[_ [_ Hh]]|[E _]]]]; try congruence.
+  destruct (post_working_outage sigma i x tr m ms x' Hm Hh) as (mc & outs & sto' & occ & j & jb & k & o & A & B & C & _ & _ & _ & _ & D & _).
+  exists mc, outs, sto', occ. auto.
+Qed.
+Print Assumptions C10_machine_blocked_exact.
+
+(* sampled outages: untouched inactive records, or records starting now with non-negative length; the
+   blocking time (their maximum) is never negative; a component with no outage due is blocked for 0 *)
+Theorem C10_sampled_outages :
+  forall sigma now cs sto os outs sto',
+    sto_nonneg sto -> forallb (fun o => tc_nonneg (og_dur o)) cs = true ->
+    new_outage_states sigma now sto cs os = Ok (outs, sto') ->
+    Forall (oact_fresh now) outs /\ sto_nonneg sto'.
+Proof. intros sigma now. exact (new_outage_states_ok sigma now). Qed.
+Theorem C10_duration_nonneg :
+  forall now outs v, Forall (oact_fresh now) outs -> occupied_time outs = Ok v -> (0 <= v)%Z.
+Proof. exact occupied_time_nonneg. Qed.
+Theorem C10_none_due : occupied_time [] = Ok 0%Z.
+Proof. reflexivity. Qed.
+Print Assumptions C10_sampled_outages.
+
+(* release of a machine: idle again, every outage record inactive with its end remembered *)
+Theorem C10_machine_release :
+  forall sigma i x tr m ms x',
+    tr_comp tr = CM m -> nth_error (s_machs x) m = Some ms -> m_st ms = MOutage ->
+    apply_transition sigma i x tr = Ok x' ->
+    exists ms', nth_error (s_machs x') m = Some ms' /\ m_st ms' = MIdle /\ m_out ms' = map release_outage (m_out ms).
+Proof.
+  intros sigma i x tr m ms x' Hc Hm Hst H.
+  destruct (apply_machine sigma i x tr m ms x' Hc Hm H) as [[E _]|[[E _]|[[E _]|[_ [_ Hh]]]]]; try congruence.
+  destruct (post_outage_idle i x tr m ms x' Hm Hh) as (j & jb & k & o & _ & _ & _ & _ & (ms' & A & B & C & _) & _).
+  exists ms'. auto.
+Qed.
+Theorem C10_release_remembers_end :
+  forall s e, release_outage (OActive s e) = OInactive e.
+Proof. reflexivity. Qed.
+Theorem C10_release_all_inactive :
+  forall os, forallb oact_inactive (map release_outage os) = true.
+Proof. induction os as [|[s e|l] os IH]; simpl; auto. Qed.
+Print Assumptions C10_machine_release.
+
+(* AGV: after a delivery it is blocked until now + longest active outage, claims nothing, stands at the
+   destination *)
+Theorem C10_agv_blocked_exact :
+  forall sigma i x tr t ts x',
+    nth_error (s_trans x) t = Some ts -> h_t_transit_outage sigma i x tr t ts = Ok x' ->
+    exists ac outs sto' occ_for dst,
+      nth_error (i_trans i) t = Some ac
+      /\ new_outage_states sigma (s_now x) (s_sto x) (ac_out ac) (t_out ts) = Ok (outs, sto')
+      /\ occupied_time outs = Ok occ_for
+      /\ exists ts', nth_error (s_trans x') t = Some ts' /\ t_st ts' = TOutage /\ t_occ ts' = OAt (s_now x + occ_for)%Z
+           /\ t_loc ts' = LAt dst /\ t_job ts' = None /\ t_out ts' = outs.
+Proof.
+  intros sigma i x tr t ts x' Ht H.
+  destruct (post_deliver sigma i x tr t ts x' Ht H) as (j & jb & cur & src & dst & ac & B & outs & sto' & occ & _ & _ & _ & A & _ & C & D & (ts' & E1 & E2 & E3 & E4 & E5 & E6 & _) & _).
+  exists ac, outs, sto', occ, dst. repeat split; auto. exists ts'. repeat split; auto.
+Qed.
+Print Assumptions C10_agv_blocked_exact.
+
+(* a component in OUTAGE accepts nothing but the release *)
+Theorem C10_outage_accepts_only_release :
+  forall b, is_valid_transition machine_table (NM MOutage) (NM b) = true -> b = MIdle.
+Proof. intros b H. destruct b; simpl in H; try discriminate; reflexivity. Qed.
+Theorem C10_agv_outage_accepts_only_release :
+  forall b, is_valid_transition transport_table (NT TOutage) (NT b) = true -> b = TIdle.
+Proof. intros b H. destruct b; simpl in H; try discriminate; reflexivity. Qed.
